@@ -3,57 +3,50 @@
 package utils
 
 import (
-	pathutils "github.com/onosproject/onos-config/pkg/utils/path"
+	"github.com/onosproject/onos-config/internal/verifgen"
 	"github.com/onosproject/onos-config/internal/verifrt"
+	pathutils "github.com/onosproject/onos-config/pkg/utils/path"
 	pb "github.com/openconfig/gnmi/proto/gnmi"
 )
 
-// VerifC16Roundtrip: one path element, optional single key; render, split, parse, compare.
-func VerifC16Roundtrip() {
-	name := verifrt.NondetString("name", 2, "ab-")
-	verifrt.Assume(len(name) >= 1)
-	hasKey := verifrt.NondetBool("haskey")
-	kname := verifrt.NondetString("kname", 1, "k")
-	verifrt.Assume(len(kname) == 1)
-	kval := verifrt.NondetString("kval", 2, "a/]\\[=")
-	verifrt.Assume(len(kval) >= 1)
-	elem := &pb.PathElem{Name: name}
-	if hasKey {
-		elem.Key = map[string]string{kname: kval}
-	}
-	s := StrPathElem([]*pb.PathElem{elem})
-	toks := SplitPath(s)
-	verifrt.Cover("rendered")
-	verifrt.Assert(len(s) < 11, "len-lt-11")
-	verifrt.Assert(len(s) < 12, "len-lt-12")
-	verifrt.Assert(len(toks) == 1, "one-token")
-	parsed, err := ParseGNMIElements(toks)
-	verifrt.Assert(err == nil, "parses")
-	if err == nil && len(toks) == 1 {
-		verifrt.Cover("parsed")
-		verifrt.Assert(len(parsed.Elem) == 1, "one-elem")
-		got := parsed.Elem[0]
-		verifrt.Assert(got.Name == name, "name")
-		if hasKey {
-			v, ok := got.Key[kname]
-			verifrt.Assert(ok && v == kval && len(got.Key) == 1, "key")
-		} else {
-			verifrt.Assert(len(got.Key) == 0, "nokey")
-		}
-	}
+// name bytes: YANG identifier bytes + module separator; key values: accepted index bytes + every escape-worthy byte
+const (
+	vNameAlpha = "aZ9_-.:"
+	vKeyAlpha  = "ab_"
+	vValAlpha  = "a1-._*:/[]=\\"
+)
+
+func vShape() verifgen.Shape {
+	// the tier selects the bounds (values injected by the driver through Fork-free constants)
+	return verifgen.Shape{MaxElems: verifrt.Param("elems"), MaxKeys: verifrt.Param("keys"), NameLen: verifrt.Param("namelen"),
+		ValLen: verifrt.Param("vallen"), NameAlpha: vNameAlpha, KeyAlpha: vKeyAlpha, ValAlpha: vValAlpha}
 }
 
-// VerifC16Parent: the parent of a rendered two-element path is the rendering of its first element.
-func VerifC16Parent() {
-	n1 := verifrt.NondetString("n1", 1, "ab")
-	verifrt.Assume(len(n1) == 1)
-	n2 := verifrt.NondetString("n2", 1, "ab")
-	verifrt.Assume(len(n2) == 1)
-	kval := verifrt.NondetString("kval", 2, "a/-")
-	verifrt.Assume(len(kval) >= 1)
-	e1 := &pb.PathElem{Name: n1}
-	e2 := &pb.PathElem{Name: n2, Key: map[string]string{"k": kval}}
-	s := StrPathElem([]*pb.PathElem{e1, e2})
+// VerifC16Roundtrip (R1, R3): Parse(Split(Str(p))) == p, element for element, key for key.
+func VerifC16Roundtrip() {
+	elems := verifgen.Elems("p", vShape())
+	s := StrPathElem(elems)
+	toks := SplitPath(s)
 	verifrt.Cover("rendered")
-	verifrt.Assert(pathutils.GetParentPath(s) == StrPathElem([]*pb.PathElem{e1}), "parent")
+	verifrt.Assert(len(toks) == len(elems), "split-count")
+	parsed, err := ParseGNMIElements(toks)
+	verifrt.Assert(err == nil, "parses")
+	if err == nil {
+		verifrt.Cover("parsed")
+		verifrt.Assert(verifgen.SameElems(parsed.Elem, elems), "roundtrip")
+	}
+	// StrPath on the path object is the same text
+	verifrt.Assert(StrPath(&pb.Path{Elem: elems}) == s, "strpath")
+}
+
+// VerifC16Parent (R4): the parent of a rendered path is the rendering of the path without its last element.
+func VerifC16Parent() {
+	elems := verifgen.Elems("p", vShape())
+	s := StrPathElem(elems)
+	verifrt.Cover("rendered")
+	want := ""
+	if len(elems) > 1 {
+		want = StrPathElem(elems[:len(elems)-1])
+	}
+	verifrt.Assert(pathutils.GetParentPath(s) == want, "parent")
 }
